@@ -387,6 +387,25 @@ pub fn build_builder(
     }
     if opts.capture_debug {
         let text = catch_unwind(AssertUnwindSafe(|| format!("{:?}", b))).map_err(|p| panic_msg(&p));
+        // the same builder through other format specifications: width, precision, fill, alternate
+        if let Ok(plain) = &text {
+            let variants: Vec<(&str, Result<String, String>)> = vec![
+                ("{:#?}", catch_unwind(AssertUnwindSafe(|| format!("{:#?}", b))).map_err(|p| panic_msg(&p))),
+                ("{:.2?}", catch_unwind(AssertUnwindSafe(|| format!("{:.2?}", b))).map_err(|p| panic_msg(&p))),
+                ("{:40?}", catch_unwind(AssertUnwindSafe(|| format!("{:40?}", b))).map_err(|p| panic_msg(&p))),
+                ("{:*<9.1?}", catch_unwind(AssertUnwindSafe(|| format!("{:*<9.1?}", b))).map_err(|p| panic_msg(&p))),
+            ];
+            for (spec, t) in variants {
+                if t.as_ref().ok() != Some(plain) {
+                    ctx.debug_variants
+                        .lock()
+                        .unwrap()
+                        .entry(bid)
+                        .or_default()
+                        .push((spec.to_string(), t.unwrap_or_else(|e| format!("panic: {}", e))));
+                }
+            }
+        }
         ctx.debug_texts.lock().unwrap().insert(bid, text);
     }
     if opts.call_print {
